@@ -15,7 +15,7 @@
    every one-line limit, every pair of comparators that depend only on names and values. *)
 From V.model Require Import Base Deb822Lex Deb822Parse Grammar Lossy LossySpec Deb822Edit LiveDoc Deb822Wrap WrapSpec ControlSpec.
 From V.model Require RelAcc RelGrammar RelWrap RelWrapSpec.
-From V.proofs Require Import LiveDocP Deb822WrapP Deb822WrapInstP ControlWrapP WrapTokP.
+From V.proofs Require Import LiveDocP Deb822WrapP Deb822WrapInstP ControlWrapP WrapTokP ParseTokP.
 
 (* ---------------------------------------------------------------- the property *)
 (* 1. All clauses, for the repaired code, without a formatter (C07_full is in WrapSpec.v). *)
@@ -526,6 +526,52 @@ Theorem C07_tokens_by_name : forall ind iel mll, esort_ok ind iel mll (Some by_n
 Proof. exact by_name_esort_ok. Qed.
 Check C07_tokens_by_name : forall ind iel mll, esort_ok ind iel mll (Some by_name).
 Print Assumptions C07_tokens_by_name.
+
+(* 12. EVERY document the strict reader returns (from_str s = Ok t: the property's "all error-free
+       documents", CR line ends, blanks before the colon, blank and comment lines inside values
+       included) is such a token document; so, without a formatter, for every indentation of at
+       least one column, both settings, every limit and all comparators that answer consistently
+       and do not see the re-layout: no panic; the result is d_out (comment lines in front of the
+       same paragraph / field, stable order); its paragraphs are those of the input in the sorted
+       order, each with the fields p_out gives it -- by C07_error_free_paragraph the fields it had,
+       names and values, in the stable order of the field sort --; a second application returns
+       the same tree.  (NOT proved for these documents: that the printed result parses strictly and
+       re-reads to the reported content -- that needs the reader's theorem C03 for layouts outside
+       Grammar.v; it is checked by the streams.) *)
+Theorem C07_error_free_is_token_doc : forall s t ind, from_str s = Ok t -> ind_pos ind -> token_doc ind t = true.
+Proof. exact error_free_is_token_doc. Qed.
+Check C07_error_free_is_token_doc : forall s t ind, from_str s = Ok t -> ind_pos ind -> token_doc ind t = true.
+Print Assumptions C07_error_free_is_token_doc.
+
+Theorem C07_error_free : forall s t ind iel mll psort esort, from_str s = Ok t -> ind_pos ind ->
+  esort_ok ind iel mll esort -> psort_ok ind iel mll psort esort ->
+  let R := d_out ind iel mll psort esort (children t) in
+  doc_ws fixed psort (Some (para_ws fixed ind iel mll esort None)) t = Ok R /\
+  doc_items t = map (fun g => items (snd g)) (fst (d_groups (children t) [])) /\
+  doc_items R = map (fun g => items (Node PARAGRAPH (p_out ind iel mll esort (children (snd g)))))
+                    (sort_opt (option_map on_snd psort) (fst (d_groups (children t) []))) /\
+  doc_ws fixed psort (Some (para_ws fixed ind iel mll esort None)) R = Ok R.
+Proof. exact error_free_ws. Qed.
+Check C07_error_free : forall s t ind iel mll psort esort, from_str s = Ok t -> ind_pos ind ->
+  esort_ok ind iel mll esort -> psort_ok ind iel mll psort esort ->
+  let R := d_out ind iel mll psort esort (children t) in
+  doc_ws fixed psort (Some (para_ws fixed ind iel mll esort None)) t = Ok R /\
+  doc_items t = map (fun g => items (snd g)) (fst (d_groups (children t) [])) /\
+  doc_items R = map (fun g => items (Node PARAGRAPH (p_out ind iel mll esort (children (snd g)))))
+                    (sort_opt (option_map on_snd psort) (fst (d_groups (children t) []))) /\
+  doc_ws fixed psort (Some (para_ws fixed ind iel mll esort None)) R = Ok R.
+Print Assumptions C07_error_free.
+
+Theorem C07_error_free_paragraph : forall ind iel mll esort cs, forallb (pchild_ok ind) cs = true ->
+  items (Node PARAGRAPH cs) = flat_map (fun g => epair (snd g)) (fst (p_groups cs [])) /\
+  items (Node PARAGRAPH (p_out ind iel mll esort cs)) =
+    flat_map (fun g => epair (snd g)) (sort_opt (option_map on_snd esort) (fst (p_groups cs []))).
+Proof. exact p_out_items. Qed.
+Check C07_error_free_paragraph : forall ind iel mll esort cs, forallb (pchild_ok ind) cs = true ->
+  items (Node PARAGRAPH cs) = flat_map (fun g => epair (snd g)) (fst (p_groups cs [])) /\
+  items (Node PARAGRAPH (p_out ind iel mll esort cs)) =
+    flat_map (fun g => epair (snd g)) (sort_opt (option_map on_snd esort) (fst (p_groups cs []))).
+Print Assumptions C07_error_free_paragraph.
 
 (* ---------------------------------------------------------------- non-vacuity *)
 Module Examples.
